@@ -3,6 +3,8 @@ package an
 import (
 	"regexp"
 	"strings"
+
+	"golang.org/x/tools/go/ssa"
 )
 
 func init() {
@@ -22,6 +24,36 @@ func runC13(p *Prog, r *Report) {
 
 	queuePops(p, r, "C13.13/queue-pops", func(rel string) bool { return strings.HasPrefix(rel, "transport") || rel == "internal/core" })
 	r.Floor("C13.13/queue-pops", "queue_pop_sites", 2)
+	{
+		R := "C13.14/core-state-writers"
+		r.Describe(R, "the socket's hook and its endpoint lists are written only by the calls that own them: the hook by SetPipeEventHook (Close must not drop it: the Detached events of the pipes it tears down are still to come), the dialer list by NewDialer and Close, the listener list by NewListener and Close")
+		q.OnlyIn(R, "writers-of-pipehook", p.PostPubWritersOf("internal/core.socket.pipehook"), []string{"internal/core.(*socket).SetPipeEventHook"}, []string{"internal/core.(*socket).SetPipeEventHook"})
+		q.OnlyIn(R, "writers-of-dialers", p.PostPubWritersOf("internal/core.socket.dialers"), []string{"internal/core.(*socket).NewDialer", "internal/core.(*socket).Close"}, []string{"internal/core.(*socket).NewDialer", "internal/core.(*socket).Close"})
+		q.OnlyIn(R, "writers-of-listeners", p.PostPubWritersOf("internal/core.socket.listeners"), []string{"internal/core.(*socket).NewListener", "internal/core.(*socket).Close"}, []string{"internal/core.(*socket).NewListener", "internal/core.(*socket).Close"})
+		// a websocket pipe has an option map of its own: LOCAL-ADDR, REMOTE-ADDR and TLS-STATE
+		// are written into it per connection
+		nm, bad := 0, ""
+		for _, fn := range p.Funcs {
+			if rel, _ := p.FuncRel(fn); rel != "transport/ws" {
+				continue
+			}
+			EachInstr(fn, func(in ssa.Instruction) {
+				st, ok := in.(*ssa.Store)
+				if !ok {
+					return
+				}
+				fa, ok := st.Addr.(*ssa.FieldAddr)
+				if !ok || fieldKeyOf(fa) != "transport/ws.wsPipe.options" {
+					return
+				}
+				nm++
+				if _, isMk := st.Val.(*ssa.MakeMap); !isMk {
+					bad = p.InstrPos(in) + " stores " + Desc(st.Val)
+				}
+			})
+		}
+		r.Check(nm >= 2 && bad == "", R, "ws-pipe-options-are-its-own", "-", "every websocket pipe gets a freshly made option map", "a websocket pipe's option map is not freshly made ("+bad+"): the per-connection addresses and TLS state written into it are shared with other pipes, so a pipe reports another connection's addresses")
+	}
 	// ---- C13.1 addPipe ordering
 	R := "C13.1/addPipe"
 	r.Describe(R, "addPipe: Attaching hook before proto.AddPipe; added=true only under p.lock on the AddPipe==nil and !closing edges; Attached hook after added=true")
@@ -67,7 +99,7 @@ func runC13(p *Prog, r *Report) {
 		// closes must already be there (else it is attached to a closed socket and nothing
 		// ever closes it: no Detached, id never freed)
 		ladd := ap.Ev("call", "core.(*pipeList).Add")
-		q.Req(R, "listed-before-attaching", len(ladd) == 1 && len(ladd[0].Guard) == 0 && len(padd) == 1 && padd.DominatedBy(ladd) && (len(hookA) != 1 || hookA.DominatedBy(ladd)), ladd.Pos(p),
+		q.Req(R, "listed-before-attaching", len(ladd) == 1 && ladd[0].Unconditional() && len(padd) == 1 && padd.DominatedBy(ladd) && (len(hookA) != 1 || hookA.DominatedBy(ladd)), ladd.Pos(p),
 			"pipes.Add unconditionally before the Attaching hook and proto.AddPipe", "the pipe is not put into the socket's pipe list before the Attaching hook / proto.AddPipe: a socket.Close during the attach does not see it, and it ends up attached to a closed socket that never closes it")
 		// refusal path: on AddPipe error: Remove from list + async close, no Attached, no added
 		rem := ap.Ev("call", "core.(*pipeList).Remove")
@@ -118,7 +150,7 @@ func runC13(p *Prog, r *Report) {
 			q.Req(R, "closing-set-under-lock", len(cst) == 1 && cst.AllHeld(corePipeMu), cst.Pos(p), "closing=true under p.lock", "closing=true missing or not under p.lock")
 			q.Req(R, "closing-before-added-test", rp.DominatedBy(cst), rp.Pos(p), "closing set before the added test", "closing=true does not dominate the remPipe decision")
 			tcl := cl.Ev("call", "TranPipe.Close")
-			q.Req(R, "transport-closed", len(tcl) == 1 && len(tcl[0].Guard) == 0, tcl.Pos(p), "transport pipe closed unconditionally", "transport Close missing or conditional in pipe.Close")
+			q.Req(R, "transport-closed", len(tcl) == 1 && tcl[0].Unconditional(), tcl.Pos(p), "transport pipe closed unconditionally", "transport Close missing or conditional in pipe.Close")
 			once := pc.Ev("call", "sync.(*Once).Do")
 			q.Req(R, "inside-once", len(once) == 1, once.Pos(p), "Close body runs inside closeOnce.Do", "pipe.Close does not run its body in closeOnce.Do")
 			gpc := cl.Ev("go", "core.(*dialer).pipeClosed")
@@ -146,14 +178,14 @@ func runC13(p *Prog, r *Report) {
 		if cl.OK() {
 			hk := cl.Ev("call", "PipeEventHook").Arg(0, detached)
 			fr := cl.Ev("call", "core.(*pipeIDAllocator).Free")
-			q.Req(R, "free-after-hook", len(hk) == 1 && len(fr) == 1 && orderedBefore(hk[0], fr[0]) && len(fr[0].Guard) == 0, fr.Pos(p),
+			q.Req(R, "free-after-hook", len(hk) == 1 && len(fr) == 1 && orderedBefore(hk[0], fr[0]) && fr[0].Unconditional(), fr.Pos(p),
 				"Free follows the Detached hook on every path", "pipeIDs.Free can run before the Detached hook, or is conditional")
 			q.Req(R, "free-arg-is-pipe-id", len(fr) == 1 && len(fr[0].Args) == 2 && strings.HasSuffix(fr[0].Args[1], ".id"), fr.Pos(p), "frees p.id", "Free is not applied to the pipe's id")
 		}
 		prm := rp.Ev("call", "ProtocolBase.RemovePipe")
 		lst := rp.Ev("call", "core.(*pipeList).Remove")
 		g := rp.Ev("go", "")
-		q.Req(R, "remPipe-shape", len(prm) == 1 && len(lst) == 1 && len(g) == 1 && len(prm[0].Guard) == 0 && len(lst[0].Guard) == 0 && len(g[0].Guard) == 0, rp.Pos(),
+		q.Req(R, "remPipe-shape", len(prm) == 1 && len(lst) == 1 && len(g) == 1 && prm[0].Unconditional() && lst[0].Unconditional() && g[0].Unconditional(), rp.Pos(),
 			"RemovePipe, list removal and the Detached goroutine are unconditional", "remPipe no longer unconditionally calls proto.RemovePipe / pipes.Remove / spawns the Detached goroutine")
 	}
 	q.OnlyIn(R, "callers-of-pipeIDs.Get", p.CallersOf("core.(*pipeIDAllocator).Get"), []string{"internal/core.newPipe"}, []string{"internal/core.newPipe"})
@@ -363,7 +395,7 @@ func pipeIDPairing(p *Prog, r *Report, R string) {
 	r.Check(len(ls) == 1 && ls.AllHeld(pl), R, "never-attached-leaves-list", ls.Pos(p), "and leaves the socket's pipe list", "a pipe closed before it was attached stays in the socket's pipe list for ever")
 	// exactly once: the whole body runs under closeOnce, and nothing else calls Free
 	od := cl.Ev("call", "sync.(*Once).Do")
-	r.Check(len(od) == 1 && len(od[0].Guard) == 0, R, "once", od.Pos(p), "the release runs inside closeOnce.Do", "pipe.Close no longer runs its body exactly once")
+	r.Check(len(od) == 1 && od[0].Unconditional(), R, "once", od.Pos(p), "the release runs inside closeOnce.Do", "pipe.Close no longer runs its body exactly once")
 	// addPipe sets added under the same lock, after testing closing
 	ap := q.Fn(R, "internal/core", "socket", "addPipe")
 	if ap.OK() {
@@ -394,7 +426,7 @@ func allocatorFreshness(p *Prog, r *Report, R string) {
 		return
 	}
 	adv := get.Ev("store", "recv.next").Arg(0, "(recv.next + 1)")
-	q.Req(R, "advances", len(adv) == 1 && len(adv[0].Guard) == 0, adv.Pos(p), "next advances on every iteration", "next is not advanced unconditionally in the loop")
+	q.Req(R, "advances", len(adv) == 1 && adv[0].Unconditional(), adv.Pos(p), "next advances on every iteration", "next is not advanced unconditionally in the loop")
 	var rets Sel
 	for _, e := range get.Ev("return", "") {
 		if len(e.Args) == 1 && e.Args[0] != "$new" && e.Args[0] != "new" {
